@@ -4,7 +4,10 @@
    The models follow the structure of the Python code (index lists, chunks, slice updates) and are
    polymorphic in the row type, so the same definitions are (i) run by vm_compute on float rows /
    tokens in the correspondence check and (ii) instantiated with real quaternions in the theorems.
-   A row is `option A`: None is a NaN row.  No Reals here: the file is axiom-free. *)
+   A row is `option A`: None is a NaN row, i.e. a row with AT LEAST ONE NaN component (get_nan_intervals reduces with
+   np.any(np.isnan(data), axis=1); a difference with such a row has a NaN norm, so it is never a jump; slerp_nan overwrites
+   the whole row).  Rows containing +-inf are not NaN rows for the code (np.isnan) and are outside the property (unit rows).
+   No Reals here: the file is axiom-free. *)
 From Coq Require Import List Arith Bool.
 Import ListNotations.
 
